@@ -248,7 +248,14 @@ struct Pending {
 fn start_batch(ctx: &mut Ctx, cases: Vec<(Case, bool)>, prev: Option<Pending>) -> Pending {
     let mut reqs = vec![];
     let mut done = vec![];
+    let mut kept: Vec<(Case, bool)> = vec![];
     for (c, with_model) in &cases {
+        if crate::imp::timeouts() >= 25 {
+            // the implementation hangs (recorded above as violations); every hung call leaves a spinning thread behind, so
+            // the remaining cases are not executed
+            ctx.count("not executed after 25 calls that did not return");
+            continue;
+        }
         ctx.evaluations += 1;
         let res = exec(ctx, c);
         if oracle(ctx, c, &res) {
@@ -265,12 +272,13 @@ fn start_batch(ctx: &mut Ctx, cases: Vec<(Case, bool)>, prev: Option<Pending>) -
             ctx.skip_model("not sent to the model (throughput budget of this tier)");
         }
         done.push((res, ids));
+        kept.push((c.clone(), *with_model));
     }
     if let Some(p) = prev {
         finish_batch(ctx, p);
     }
     let model = std::thread::spawn(move || run_model(&reqs));
-    Pending { cases, done, model }
+    Pending { cases: kept, done, model }
 }
 
 fn finish_batch(ctx: &mut Ctx, p: Pending) {
